@@ -234,3 +234,43 @@ package invocation
 //@   use node_sizes, node_map_children
 //@   ensures [C06,C10] envelope: result2 == nil ==> envelopeVerified(decodeWith(dagcbor.Decode, bytes(data)), Tag)
 //@   ensures [C08] cid: result2 == nil ==> result1 == ucanCid(bytes(data))
+//@
+//@ // ---- sealing: C08 (the CID is the content address of the sealed bytes) and C18 (streaming = buffered) ----
+//@ // sealedNode names the envelope node toIPLD builds for (token, key); toIPLD itself is trusted here
+//@ ghost func sealedNodei(t *Token, k crypto.PrivKey) datamodel.Node
+//@ func (*Token).toIPLD
+//@   trusted
+//@   requires t != nil
+//@   ensures result1 == nil ==> result0 != nil && result0 == sealedNodei(t, privKey)
+//@   assigns nothing
+//@ func (*Token).Encode
+//@   requires t != nil
+//@   ensures [C08,C18] bytes: result1 == nil ==> bytes(result0) == encodeWith(encFn, sealedNodei(t, privKey))
+//@ func (*Token).ToSealed
+//@   requires t != nil
+//@   ensures [C08] cid: result2 == nil ==> result1 == ucanCid(bytes(result0))
+//@   ensures [C08,C18] bytes: result2 == nil ==> bytes(result0) == encodeWith(dagcbor.Encode, sealedNodei(t, privKey))
+//@ func (*Token).EncodeWriter
+//@   inline
+//@   requires t != nil && w != nil
+//@   ensures [C18] bytes: result == nil ==> written(w) == old(written(w)) ++ encodeWith(encFn, sealedNodei(t, privKey)) && wfailed(w) == old(wfailed(w))
+//@   assigns written(w), wfailed(w)
+//@ func (*Token).ToSealedWriter
+//@   requires t != nil && w != nil
+//@   use cid_sum_sha256
+//@   ensures [C18] bytes: result1 == nil ==> written(w) == old(written(w)) ++ encodeWith(dagcbor.Encode, sealedNodei(t, privKey)) && wfailed(w) == old(wfailed(w))
+//@   ensures [C08,C18] cid: result1 == nil ==> result0 == ucanCid(encodeWith(dagcbor.Encode, sealedNodei(t, privKey)))
+//@   assigns written(w), wfailed(w)
+//@ func DecodeReader
+//@   inline
+//@   requires r != nil && decFn != nil
+//@   requires bindnodeInvModelsWF() && (forall x any :: unwrapped(x) && x is *tokenPayloadModel ==> x.(*tokenPayloadModel) != nil)
+//@   use node_sizes, node_map_children
+//@   assigns anything
+//@ func FromSealedReader
+//@   requires r != nil
+//@   requires bindnodeInvModelsWF() && (forall x any :: unwrapped(x) && x is *tokenPayloadModel ==> x.(*tokenPayloadModel) != nil)
+//@   use node_sizes, node_map_children
+//@   ensures [C18] nofault: result2 == nil ==> failed(r) == old(failed(r))
+//@   ensures [C08,C18] cid: result2 == nil ==> (exists x string :: delivered(r) == old(delivered(r)) ++ x && result1 == ucanCid(x) && envelopeVerified(decodeWith(dagcbor.Decode, x), Tag))
+//@   assigns anything
